@@ -40,8 +40,9 @@ func deferredClosures(fns []*ssa.Function) map[*ssa.Function]bool {
 }
 
 // runSessionTypestate runs E6/E7a over sfilesys.go and returns the engine (shared by C08/C11/C13/C14).
-func runSessionTypestate(p *Prog) (*TS, []*ssa.Function) {
+func runSessionTypestate(p *Prog, own bool) (*TS, []*ssa.Function) {
 	ts := newTS(p, sfidSpec)
+	ts.own = own
 	fns := sessionFuncs(p)
 	inl := deferredClosures(fns)
 	var analysed []*ssa.Function
@@ -70,7 +71,7 @@ func checkC14(r *Run) {
 	r.NotDecided = append(r.NotDecided, "linearizability of results", "data races outside the SFid lock discipline (e.g. inside a FileSys implementation)", "termination of FileSys calls")
 	r.Trusted = append(r.Trusted, "sync.Mutex, sync.Map semantics")
 
-	ts, fns := runSessionTypestate(p)
+	ts, fns := runSessionTypestate(p, false)
 	for _, fn := range fns {
 		r.SawFn(fnName(fn))
 	}
